@@ -287,6 +287,13 @@ Section Weights.
     - destruct (dev_emit (dev_fail cfg) n); exact P.
   Qed.
 
+  Lemma end_stream_pend tl id : Pend (end_stream tl id) = Pend tl.
+  Proof.
+    unfold end_stream. destruct (find_track id (tracks tl)) as [t|] eqn:F; [|reflexivity].
+    apply (upd_same tl t); [|reflexivity]. change (t_id (set_stream t empty_stream)) with (t_id t).
+    rewrite (find_track_id _ _ _ F). exact F.
+  Qed.
+
   Lemma tick_one_cons cfg tl id :
     let '(tl', c, _) := tick_one cfg tl id in Pend tl' + Woff c = Pend tl + Won c.
   Proof.
@@ -302,7 +309,8 @@ Section Weights.
     - rewrite finish_track_pend. lia.
     - rewrite finish_track_pend. lia.
     - destruct (ignore_exc cfg); [rewrite remove_track_pend|]; lia.
-    - destruct (nth cb (cbs cfg) (CbNone, [])) as [rk ops]. rewrite finish_track_pend, exec_cb_ops_pend. lia.
+    - destruct (nth cb (cbs cfg) (CbNone, [])) as [rk ops]. cbv zeta. rewrite finish_track_pend.
+      match goal with |- context [if ?b then _ else _] => destruct b end; [rewrite end_stream_pend|]; rewrite exec_cb_ops_pend; lia.
     - lia.
   Qed.
 
